@@ -27,6 +27,7 @@ FILE_PROPS = {
     "ribbon_controller.rs": ["C15", "C16", "C17"],
     "glide_processor.rs": ["C13", "C14", "C17"],
     "utils.rs": ["C01", "C03", "C10", "C12", "C14", "C13"],
+    "lib.rs": [],
 }
 
 SWAPS = [
@@ -34,6 +35,7 @@ SWAPS = [
     (" + ", " - "), (" - ", " + "), (" * ", " / "), (" && ", " || "), (" || ", " && "),
     (".min(", ".max("), (".max(", ".min("), ("true", "false"), ("false", "true"),
     (" | ", " & "), (" += ", " -= "), (" >> ", " << "),
+    (" % ", " / "), (" / ", " * "), (" << ", " >> "), (" & ", " | "), (" -= ", " += "),
 ]
 
 
